@@ -134,6 +134,45 @@ def coq_pybqm(bqm, T):
     return f"(PyBqm.mkPyBqm {adj} {cq(F(bqm.data.offset))})"
 
 
+def raw_qmi(qm):
+    """raw QM state: adjacency structure + varinfo, as a Coq VartypeOps.qmi term"""
+    d = qm.data
+    n = qm.num_variables
+    vs = list(qm.variables)
+    lin = clist([cq(F(x)) for x in np.asarray(d._ilinear())])
+    adj = clist([clist([cpair(cnat(int(e[0])), cq(F(e[1]))) for e in np.asarray(d._ineighborhood(i))]) for i in range(n)])
+    vts = clist([qm.vartype(v).name for v in vs])
+    info = clist(["(Expr.mkI %s %s %s)" % (qm.vartype(v).name, cq(F(qm.lower_bound(v))), cq(F(qm.upper_bound(v)))) for v in vs])
+    return f"(VartypeOps.mkQI (Adj.mkQM {lin} {adj} {cq(F(qm.offset))} {vts}) {info})"
+
+
+SENSE = {'<=': 0, 'Le': 0, '>=': 1, 'Ge': 1, '==': 2, 'Eq': 2}
+
+
+def raw_mexpr(e):
+    idx = [int(x) for x in e._iindices()]
+    cidx = clist([cnat(i) for i in idx])
+    lin = clist([cq(F(x)) for x in e._ilinear()])
+    quad = clist([f"({cnat(int(u))}, {cnat(int(v))}, {cq(F(b))})" for u, v, b in e._iquadratic()])
+    return f"(Expr.mkE {cidx} (Expr.rebuild_idx {cidx}) {lin} {quad} {cq(F(e.offset))})"
+
+
+def raw_mcqm(cqm, labs):
+    """raw index-level CQM state as a Coq Expr.mcqm term (marks = is_discrete)"""
+    info = clist(["(Expr.mkI %s %s %s)" % (cqm.vartype(v).name, cq(F(cqm.lower_bound(v))), cq(F(cqm.upper_bound(v))))
+                  for v in cqm.variables])
+    cons = []
+    for l in labs:
+        k = cqm.constraints[l]
+        sv = k.sense.value if hasattr(k.sense, 'value') else str(k.sense)
+        w = k.lhs.weight()
+        pen = {None: 0, 'linear': 1, 'quadratic': 2}[None if k.lhs.penalty() is None else str(k.lhs.penalty())]
+        cons.append("(Expr.mkMC %s %s %s %s %s %s)" % (raw_mexpr(k.lhs), cnat(SENSE[sv]), cq(F(k.rhs)),
+                                                     "None" if w == float('inf') else "(Some %s)" % cq(F(w)), cnat(pen),
+                                                     "true" if k.lhs.is_discrete() else "false"))
+    return "(Expr.mkM %s %s %s)" % (info, raw_mexpr(cqm.objective), clist(cons))
+
+
 def raw_qm(bqm):
     """the raw adjacency structure of a cyBQM as a Coq Adj.qm term"""
     d = bqm.data
@@ -364,6 +403,8 @@ def run_case(c):
     if kind.startswith('qm'):
         qm = gen.build_qm(desc)
         before = gen.observe(qm)
+        rawq_before = raw_qmi(qm)
+        qvars = list(qm.variables)
         if kind == 'qm_change':
             if target is None:
                 return {"coq": None, "nontrivial": False, "features": feats}
@@ -394,8 +435,13 @@ def run_case(c):
         labels = [dec_label(v[0]) for v in allvars]
         samples = samples_for(2, labels, lambda l: dom(vtnew[str(l)]))
         vars_ = clist([cnat(T.idx(l)) for l in conv])
+        # the C++ / python loops on the raw state (adjacency structure + varinfo)
+        if kind == 'qm_change':
+            extra = [f"(QmCv {new_vt} {cnat(qvars.index(target))} {rawq_before} (Some {raw_qmi(new)}))"]
+        else:
+            extra = [f"(QmS2B {rawq_before} {raw_qmi(new)})"]
         return {"coq": f"(Conv {n} {d} {vars_} {coq_obs(before, T)} {coq_obs(after, T)} {coq_samples(samples, T)})",
-                "py_fail": py_fail, "features": feats, "nontrivial": bool(conv) and bool(before["lin"])}
+                "extra_coq": extra, "py_fail": py_fail, "features": feats, "nontrivial": bool(conv) and bool(before["lin"])}
     # cqm
     cqm = dimod.ConstrainedQuadraticModel()
     for l, vt, lb, ub in allvars:
@@ -421,6 +467,8 @@ def run_case(c):
         return [m.objective] + [m.constraints[l].lhs for l in labs]
     before = [gen.observe(x) for x in exprs(cqm)]
     attrs = [(str(cqm.constraints[l].sense), fs(cqm.constraints[l].rhs)) for l in labs]
+    rawc_before = raw_mcqm(cqm, labs)
+    cvars = list(cqm.variables)
     if kind == 'cqm_change':
         if target is None:
             return {"coq": None, "nontrivial": False, "features": feats}
@@ -449,6 +497,11 @@ def run_case(c):
     samples = samples_for(3, labels, lambda l: dom(vtnew[str(l)]))
     vars_ = clist([cnat(T.idx(l)) for l in conv])
     coqs = [f"(Conv {n} {d} {vars_} {coq_obs(b, T)} {coq_obs(a, T)} {coq_samples(samples, T)})" for b, a in zip(before, after)]
+    # the C++ / python loops on the raw index-level state of objective and every constraint
+    if kind == 'cqm_change':
+        coqs.insert(0, f"(CqmCv {new_vt} {cnat(cvars.index(target))} {rawc_before} (Some {raw_mcqm(new, labs)}))")
+    else:
+        coqs.insert(0, f"(CqmS2B {rawc_before} {raw_mcqm(new, labs)})")
     return {"coq": coqs[-1], "extra_coq": coqs[:-1], "py_fail": py_fail, "features": feats,
             "nontrivial": bool(conv)}
 
